@@ -26,7 +26,7 @@ macro_rules! prop {
 }
 
 fn registry() -> Vec<PropDef> {
-    vec![prop!("C06", c06), prop!("C07", c07), prop!("C14", c14), prop!("C15", c15), prop!("C18", c18)]
+    vec![prop!("C03", c03), prop!("C06", c06), prop!("C07", c07), prop!("C14", c14), prop!("C15", c15), prop!("C18", c18)]
 }
 
 fn main() {
